@@ -7,6 +7,7 @@ import (
 	"os"
 	"path/filepath"
 	"regexp"
+	"runtime/pprof"
 	"sort"
 	"strconv"
 	"strings"
@@ -53,7 +54,13 @@ func main() {
 	timeout := fl.Duration("timeout", 0, "exploration deadline per harness (inconclusive when hit)")
 	noNative := fl.Bool("nonative", false, "skip native replay (development only; never exits 0/1 with it)")
 	verbose := fl.Bool("v", false, "verbose")
+	cpuprof := fl.String("cpuprofile", "", "write cpu profile")
 	fl.Parse(os.Args[2:])
+	if *cpuprof != "" {
+		f, _ := os.Create(*cpuprof)
+		pprof.StartCPUProfile(f)
+		defer pprof.StopCPUProfile()
+	}
 	tier := 0
 	if *tierS == "thorough" {
 		tier = 1
@@ -175,8 +182,8 @@ func main() {
 		eng.explore(h)
 		runs = append(runs, h)
 		if *verbose || cmd == "run" {
-			fmt.Printf("== %s: paths=%d complete=%d infeasible=%d viol=%d cuts=%d decisions=%d queries sat=%d unsat=%d unknown=%d solver=%s wall=%s funcs=%d\n",
-				n, h.paths, h.completed, h.infeasible, h.violPaths, h.cuts, h.decisions, h.sat, h.unsat, h.unknown, fmtDur(h.solverTime), fmtDur(h.wall), len(h.funcs))
+			fmt.Printf("== %s: paths=%d complete=%d infeasible=%d viol=%d cuts=%d decisions=%d queries sat=%d unsat=%d unknown=%d cached=%d solver=%s wall=%s funcs=%d\n",
+				n, h.paths, h.completed, h.infeasible, h.violPaths, h.cuts, h.decisions, h.sat, h.unsat, h.unknown, h.qhits, fmtDur(h.solverTime), fmtDur(h.wall), len(h.funcs))
 			fmt.Printf("   covers=%v\n", h.covers)
 			for r, c := range h.cutReasons {
 				fmt.Printf("   CUT x%d: %s\n", c, r)
@@ -207,6 +214,7 @@ func main() {
 		}
 	}
 	if cmd == "run" && *noNative {
+		pprof.StopCPUProfile()
 		return
 	}
 	code := finish(eng, *prop, *verif, harnessDir, runs, skipped, dropped, t0, *noNative, cmd == "run")
